@@ -13,6 +13,9 @@ use rand::Rng;
 pub const VERSION: u8 = 1;
 
 pub fn now() -> Result<i64, SystemTimeError> {
+    #[cfg(octo_squirrel_verif)]
+    return Ok(crate::verif::clock::unix_now() as i64);
+    #[cfg(not(octo_squirrel_verif))]
     Ok(SystemTime::now().duration_since(UNIX_EPOCH)?.as_secs() as i64)
 }
 
